@@ -34,7 +34,7 @@ func mkPolicy(id string, content int, name string, idx uint64) *structs.ACLPolic
 		name = "policy-" + id
 	}
 	p := &structs.ACLPolicy{ID: uuid("a0a0a0a0", id), Name: name, Rules: fmt.Sprintf(`key_prefix "%s%d" { policy = "read" }`, id, content)}
-	p.ModifyIndex, p.CreateIndex = idx, idx
+	p.ModifyIndex, p.CreateIndex = idx, createIdx(idx)
 	p.SetHash(true)
 	return p
 }
@@ -45,7 +45,7 @@ func mkRole(id string, content int, name string, idx uint64) *structs.ACLRole {
 	}
 	r := &structs.ACLRole{ID: uuid("b0b0b0b0", id), Name: name, Description: fmt.Sprintf("content %d", content),
 		ServiceIdentities: structs.ACLServiceIdentities{{ServiceName: "web"}}}
-	r.ModifyIndex, r.CreateIndex = idx, idx
+	r.ModifyIndex, r.CreateIndex = idx, createIdx(idx)
 	r.SetHash(true)
 	return r
 }
@@ -53,7 +53,7 @@ func mkRole(id string, content int, name string, idx uint64) *structs.ACLRole {
 func mkToken(id string, content int, local bool, idx uint64) *structs.ACLToken {
 	t := &structs.ACLToken{AccessorID: uuid("c0c0c0c0", id), SecretID: uuid("d0d0d0d0", id), Description: fmt.Sprintf("content %d", content), Local: local,
 		ServiceIdentities: structs.ACLServiceIdentities{{ServiceName: "web"}}}
-	t.ModifyIndex, t.CreateIndex = idx, idx
+	t.ModifyIndex, t.CreateIndex = idx, createIdx(idx)
 	t.SetHash(true)
 	return t
 }
@@ -270,7 +270,7 @@ func Run(c *ev.Ctx) {
 		}
 		e.Normalize()
 		e.GetRaftIndex().ModifyIndex = idx
-		e.GetRaftIndex().CreateIndex = idx
+		e.GetRaftIndex().CreateIndex = createIdx(idx)
 		return e
 	}
 	lv := []rvar{{}, {Present: true, Content: 1}, {Present: true, Content: 2}}
@@ -410,4 +410,13 @@ func sortedKeys(m map[string]bool) []string {
 	}
 	sort.Strings(o)
 	return o
+}
+
+// createIdx: every object was created early and (for the larger modify indexes) edited later, so
+// that create and modify index differ and a comparison on the wrong one shows.
+func createIdx(modify uint64) uint64 {
+	if modify > 3 {
+		return 3
+	}
+	return modify
 }
